@@ -24,6 +24,25 @@ impl Instant {
         ensures match r { Some(i) => i.t == self.t + d.d, None => self.t + d.d > u64::MAX }
     { match self.t.checked_add(d.d) { Some(t) => Some(Instant { t }), None => None } }
 }
+impl Instant {
+    /// std: None when `earlier` is later than `self`
+    pub fn checked_duration_since(&self, earlier: Instant) -> (r: Option<Duration>)
+        ensures match r { Some(d) => d.d == self.t - earlier.t && self.t >= earlier.t, None => self.t < earlier.t }
+    { if self.t >= earlier.t { Some(Duration { d: self.t - earlier.t }) } else { None } }
+}
+impl vstd::std_specs::cmp::PartialEqSpecImpl for Duration { open spec fn obeys_eq_spec() -> bool { true } open spec fn eq_spec(&self, o: &Duration) -> bool { self.d == o.d } }
+impl PartialEq for Duration { fn eq(&self, o: &Duration) -> (r: bool) ensures r == (self.d == o.d) { self.d == o.d } }
+impl vstd::std_specs::cmp::PartialOrdSpecImpl for Duration {
+    open spec fn obeys_partial_cmp_spec() -> bool { true }
+    open spec fn partial_cmp_spec(&self, o: &Duration) -> Option<core::cmp::Ordering> {
+        if self.d < o.d { Some(core::cmp::Ordering::Less) } else if self.d == o.d { Some(core::cmp::Ordering::Equal) } else { Some(core::cmp::Ordering::Greater) }
+    }
+}
+impl PartialOrd for Duration {
+    fn partial_cmp(&self, o: &Duration) -> Option<core::cmp::Ordering> {
+        if self.d < o.d { Some(core::cmp::Ordering::Less) } else if self.d == o.d { Some(core::cmp::Ordering::Equal) } else { Some(core::cmp::Ordering::Greater) }
+    }
+}
 impl core::ops::Add<Duration> for Instant {
     type Output = Instant;
     fn add(self, rhs: Duration) -> Instant { Instant { t: self.t + rhs.d } }
@@ -72,11 +91,23 @@ pub struct EndpointConfig { pub reset_key: Arc<HmacKeyObj>, pub min_reset_interv
 #[verifier::external_body] pub struct IncomingBuffer { x: u64 }
 #[verifier::external_body] pub struct CidGenBox { x: u64 }
 #[verifier::external_body] #[verifier::reject_recursive_types(T)] pub struct Slab<T> { x: core::marker::PhantomData<T> }
-#[verifier::external_body] pub struct RttEstimator { x: u64 }
+#[verifier::external_body] #[derive(Copy, Clone)] pub struct RttEstimator { x: u64 }
+impl RttEstimator { #[verifier::external_body] pub fn get(&self) -> (r: Duration) { unimplemented!() } }
 #[verifier::external_body] pub struct ControllerBox { x: u64 }
+impl ControllerBox {
+    #[verifier::external_body] pub fn clone_box(&self) -> (r: ControllerBox) { unimplemented!() }
+    #[verifier::external_body] pub fn window(&self) -> (r: u64) { unimplemented!() }
+}
 #[verifier::external_body] pub struct Pacer { x: u64 }
+impl Pacer {
+    #[verifier::external_body] pub fn new(smoothed_rtt: Duration, capacity: u64, mtu: u16, max_bytes_per_second: Option<u64>, now: Instant) -> (r: Self) { unimplemented!() }
+    #[verifier::external_body] pub fn max_bytes_per_second(&self) -> (r: Option<u64>) { unimplemented!() }
+}
 #[verifier::external_body] pub struct MtuDiscovery { x: u64 }
+impl Clone for MtuDiscovery { #[verifier::external_body] fn clone(&self) -> (r: Self) { unimplemented!() } }
+impl MtuDiscovery { #[verifier::external_body] pub fn current_mtu(&self) -> (r: u16) { unimplemented!() } }
 #[verifier::external_body] pub struct InFlight { x: u64 }
+impl InFlight { #[verifier::external_body] pub fn new() -> (r: Self) { unimplemented!() } }
 }
 pub mod code {
 use super::*; use super::shims::*;
@@ -130,6 +161,15 @@ impl Endpoint {
 //@ replace Box<dyn congestion::Controller> => ControllerBox
 //@ end
 impl PathData {
+//@ extract quinn-proto/src/connection/paths.rs :: impl PathData::fn current_mtu
+//@ end
+//@ extract quinn-proto/src/connection/paths.rs :: impl PathData::fn from_previous
+//@ ret r
+//@ contract
+        // a path to a new address (NAT rebinding) starts unvalidated and with no amplification credit: what was received from the old
+        // address says nothing about the new one
+        ensures !r.validated, r.total_recvd == 0, r.total_sent == 0, r.challenge.is_none(), !r.challenge_pending, r.generation == generation
+//@ end
 //@ extract quinn-proto/src/connection/paths.rs :: impl PathData::fn anti_amplification_blocked
 //@ ret r
 //@ contract
